@@ -301,6 +301,33 @@ func vC19Msg(r *vRng) string {
 	return vC19Str(r)
 }
 
+func vC19Version(r *vRng) string {
+	num := func() string {
+		switch r.intn(8) {
+		case 0:
+			return r.pickStr("", "0", "00", "007", "+5", "-5", "-", "+", " 1", "1 ", "1_0", "0x10", "1e3", "\xd9\xa1", "9223372036854775807",
+				"9223372036854775808", "-9223372036854775808", "-9223372036854775809", "99999999999999999999999", "a")
+		case 1:
+			return fmt.Sprint(r.next() >> uint(r.intn(64)))
+		}
+		return fmt.Sprint(r.intn(1000))
+	}
+	switch r.intn(6) {
+	case 0:
+		return r.pickStr("", "-", ".", "..", "1", "1.2", "1.2.3.4-5-6", "-5", "1.-2.3", "1.2.3-", "v1.2.3", "1.2.3-rc1", "1..3", "--", "1.2.3--4")
+	case 1:
+		n := r.rng(0, 5)
+		s := ""
+		for i := 0; i < n; i++ {
+			s += num() + r.pickStr(".", ".", "-", "")
+		}
+		return s
+	case 2:
+		return num() + "." + num() + "." + num()
+	}
+	return num() + "." + num() + "." + num() + "-" + num()
+}
+
 func vC19Gen(r *vRng) vSx {
 	cb := ""
 	if r.chance(1, 3) {
@@ -308,6 +335,9 @@ func vC19Gen(r *vRng) vSx {
 	}
 	srv := r.pickStr("Oryx", "Oryx", "SRS/4.0.1", "", "a b", "\xc3\xa9")
 	var p vSx
+	if r.chance(1, 9) {
+		return vL(vL(vZ(5), vS(vC19Version(r))), vS(cb), vS(srv), vZ(0), vI(r.intn(3)))
+	}
 	switch r.intn(9) {
 	case 0, 1, 2:
 		p = vL(vZ(0), vC19GenValue(r, 0, false), vS(""), vL(vZ(0)))
@@ -323,7 +353,7 @@ func vC19Gen(r *vRng) vSx {
 		st := r.pickInt(-1, -1, -1, 500, 404, 400, 503, 418, 200, 200, 201, 299, 300, 399, 599, 600, 999)
 		p = vL(vZ(4), vI(st), vS(vC19Msg(r)), vL(vZ(0)))
 	}
-	return vL(p, vS(cb), vS(srv), vZ(0))
+	return vL(p, vS(cb), vS(srv), vZ(0), vI(r.intn(3)))
 }
 
 // ---- one case ----
@@ -334,7 +364,7 @@ type vC19Env struct {
 
 func vC19Run(k *vKit, env *vC19Env, c vSx) {
 	bad := vL(vZ(-1))
-	if !c.isList() || len(c.l) != 4 || !c.l[0].isList() || len(c.l[0].l) < 2 {
+	if !c.isList() || len(c.l) != 5 || !c.l[0].isList() || len(c.l[0].l) < 2 {
 		k.record(c, bad, false)
 		return
 	}
@@ -342,6 +372,7 @@ func vC19Run(k *vKit, env *vC19Env, c vSx) {
 	cb, srv := string(c.l[1].b), string(c.l[2].b)
 	pid := os.Getpid()
 	kind := p.l[0].int()
+	api := c.l[4].int()
 
 	// build the handler; fill in the oracle-supplied fields of the case (marshal error text, text view, pid)
 	var h http.Handler
@@ -361,14 +392,24 @@ func vC19Run(k *vKit, env *vC19Env, c vSx) {
 		}
 		p = vL(vZ(0), p.l[1], vS(merr), vC19View([]byte(merr+"\n")))
 		h = Data(nil, val)
+		if api == 1 {
+			h = http.HandlerFunc(func(w http.ResponseWriter, r *http.Request) { WriteData(nil, w, r, val) })
+		} else if api == 2 && val == nil {
+			h = http.HandlerFunc(func(w http.ResponseWriter, r *http.Request) { Success(nil, w, r) })
+		}
 		ts := p.l[1].String()
 		nontrivial = strings.Contains(ts, "(4 ") || strings.Contains(ts, "(5 ") || strings.Contains(ts, "22") || strings.Contains(ts, "5c") || strings.Contains(ts, "x0")
 	case 1:
 		code = p.l[1].i64()
 		h = Error(nil, SystemError(int(code)))
+		if api == 1 {
+			h = http.HandlerFunc(func(w http.ResponseWriter, r *http.Request) { WriteError(nil, w, r, SystemError(int(code))) })
+		}
 	case 2:
 		code, msg = p.l[1].i64(), string(p.l[2].b)
-		if len(p.l) > 3 && p.l[3].int() == 1 {
+		if api == 2 {
+			h = http.HandlerFunc(func(w http.ResponseWriter, r *http.Request) { WriteCplxError(nil, w, r, SystemError(int(code)), msg) })
+		} else if len(p.l) > 3 && p.l[3].int() == 1 {
 			h = CplxError(nil, SystemError(int(code)), msg)
 		} else {
 			h = Error(nil, SystemComplexError{SystemError(int(code)), msg})
@@ -388,6 +429,10 @@ func vC19Run(k *vKit, env *vC19Env, c vSx) {
 		} else {
 			h = Error(nil, vC19Plain{st, msg})
 		}
+	case 5:
+		msg = string(p.l[1].b)
+		h = http.HandlerFunc(func(w http.ResponseWriter, r *http.Request) { WriteVersion(w, r, msg) })
+		nontrivial = strings.Contains(msg, "-") && strings.Contains(msg, ".")
 	default:
 		k.record(c, bad, false)
 		return
@@ -395,7 +440,7 @@ func vC19Run(k *vKit, env *vC19Env, c vSx) {
 	if kind >= 1 && kind <= 3 && code < 0 {
 		nontrivial = true
 	}
-	c = vL(p, c.l[1], c.l[2], vI(pid))
+	c = vL(p, c.l[1], c.l[2], vI(pid), c.l[4])
 
 	// the response itself
 	q := ""
@@ -532,6 +577,39 @@ func vC19Run(k *vKit, env *vC19Env, c vSx) {
 			} else if exact(code) && int64(cCode) != code {
 				fail("client-code", "", fmt.Sprintf("ApiRequest reports code %d for error code %d", cCode, code))
 			}
+		}
+	case kind == 5:
+		if rec.Code != 200 || ct != wantCt || !isEnv {
+			fail("version-envelope", "", fmt.Sprintf("status %d content type %q body %s", rec.Code, ct, show(body)))
+			break
+		}
+		d, _ := parsed["data"].(map[string]interface{})
+		if parsed["code"] != float64(0) || parsed["server"] != float64(pid) || d == nil || d["version"] != msg || d["signature"] != srv || len(d) != 6 {
+			fail("version-envelope", "", fmt.Sprintf("body %s is not {code 0, server pid, data {major, minor, revision, extra, version, signature}}", show(body)))
+			break
+		}
+		// major.minor.revision[-extra] in plain decimal: the fields are those numbers
+		var a, b, c3, e int
+		wantN := 3
+		n := 0
+		if strings.Contains(msg, "-") {
+			wantN = 4
+			n, _ = fmt.Sscanf(msg, "%d.%d.%d-%d", &a, &b, &c3, &e)
+		} else {
+			n, _ = fmt.Sscanf(msg, "%d.%d.%d", &a, &b, &c3)
+		}
+		canon := fmt.Sprintf("%d.%d.%d", a, b, c3)
+		if wantN == 4 {
+			canon += fmt.Sprintf("-%d", e)
+		}
+		if n == wantN && canon == msg && a >= 0 && b >= 0 && c3 >= 0 && e >= 0 && a < 1<<53 && b < 1<<53 && c3 < 1<<53 && e < 1<<53 {
+			k.count("version", "canonical")
+			if d["major"] != float64(a) || d["minor"] != float64(b) || d["revision"] != float64(c3) || d["extra"] != float64(e) {
+				fail("version-fields", "", fmt.Sprintf("version %q answered as %s", msg, show(body)))
+			}
+		}
+		if cb == "" && (cErr != nil || cCode != 0) {
+			fail("client-success", "", fmt.Sprintf("ApiRequest on the version response: code %d err %v", cCode, cErr))
 		}
 	case kind == 4:
 		wantSt := st
